@@ -227,7 +227,7 @@ theorem export_ids (cfg : Cfg) (v : View) (gen : Nat → String) (src : FDir) (h
 /-! Non-vacuity: a curated 3-spike source with a temporary file and raw data, label `p0`. -/
 def exView : View :=
   { rate := 30000, samples := [0, 15000, 45000], times := [0, 1/2, 3/2], spikeClusters := [0, 2, 2], spikeTemplates := [0, 1, 1],
-    amplitudes := [1, 2, 3], nTemplates := 2, channelMap := [0, 1], channelProbes := [0, 0], features := false }
+    amplitudes := [1, 2, 3], nTemplates := 2, channelMap := [0, 1], channelProbes := [0, 0], featRows := some 2 }
 def exSrc : FDir :=
   [ (["params", "py"], ⟨"h0", [], false⟩), (["spike_clusters", "npy"], ⟨"h1", [.z 0, .z 2, .z 2], true⟩),
     (["spike_templates", "npy"], ⟨"h2", [.z 0, .z 1, .z 1], false⟩),
@@ -236,6 +236,11 @@ def exCfg : Cfg := { sameDir := false, force := false, label := "p0", hasTraces 
 def exGen (k : Nat) : String := s!"id{k}"
 
 example : ViewOK exView := by simp [ViewOK, exView]
+-- features for 2 of the 3 spikes: `get_depths()` gives nothing, spikes.depths are the cluster depths of the 3 spikes
+example : getDepthsRows exView = none ∧
+    spikesDepths exView (tokRows "clusters.depths" 3) = [.tok "clusters.depths" 0, .tok "clusters.depths" 2, .tok "clusters.depths" 2] := by
+  decide
+example : spikesDepths { exView with featRows := some 3 } (tokRows "clusters.depths" 3) = tokRows "get_depths" 3 := by decide
 example : SrcOK exView exSrc := by
   intro r hr ho e he
   simp only [fileRenames, List.mem_cons, List.not_mem_nil, or_false] at hr
